@@ -37,6 +37,19 @@ Location = tuple[Union[str, int, "Location"], ...]
 # This is use for pretty printing paths with shorthand notation where possible.
 RE_PROPERTY = re.compile(r"[\u0080-\uFFFFa-zA-Z_][\u0080-\uFFFFa-zA-Z0-9_-]*")
 
+# A root segment that can be written as a bare word.
+RE_ROOT = re.compile(r"[\u0080-\uFFFFa-zA-Z_][\u0080-\uFFFFa-zA-Z0-9_-]*\??")
+
+
+def quote_string(value: str) -> str:
+    """Return _value_ as a Liquid string literal.
+
+    Liquid string literals have no escape sequences, so we pick a quote
+    character that does not appear in _value_.
+    """
+    quote = '"' if "'" in value else "'"
+    return f"{quote}{value}{quote}"
+
 
 class Path(Expression):
     __slots__ = ("path",)
@@ -50,7 +63,13 @@ class Path(Expression):
 
     def __str__(self) -> str:
         it = iter(self.path)
-        buf = [str(next(it))]
+        root = next(it)
+        if isinstance(root, Path):
+            buf = [f"[{root}]"]
+        elif isinstance(root, str) and not RE_ROOT.fullmatch(root):
+            buf = [f"[{quote_string(root)}]"]
+        else:
+            buf = [str(root)]
         for segment in it:
             if isinstance(segment, Path):
                 buf.append(f"[{segment}]")
@@ -58,7 +77,7 @@ class Path(Expression):
                 if RE_PROPERTY.fullmatch(segment):
                     buf.append(f".{segment}")
                 else:
-                    buf.append(f"[{segment!r}]")
+                    buf.append(f"[{quote_string(segment)}]")
             else:
                 buf.append(f"[{segment}]")
         return "".join(buf)
